@@ -3,7 +3,8 @@
     (the environment [Env] of Core/Chain.v), so "any relay history" includes every proof, stale or forged,
     that any light client would accept.  Statements only; proofs are in Core/ChainInv.v, Core/ChainThms.v. *)
 From IBC Require Import Core.ChainExamples.
-From IBC Require Import Lib.Bytes Core.Height Core.Chain Core.ChainFacts Core.ChainInv Core.ChainThms.
+From IBC Require Import Lib.Bytes Core.Height Core.Chain Core.ChainFacts Core.ChainInv Core.ChainThms
+  Core.World Core.WorldInv Core.WorldInv2 Core.WorldInv3 Core.WorldThm Core.WorldV2 Core.WorldX.
 Local Open Scope N_scope.
 
 (** Over any history from any state satisfying the invariant, the keys of the receive callbacks that ran —
@@ -39,6 +40,37 @@ Theorem C01_invariant {A} :
   (forall (e : Env A) c o c' out, Inv c -> step e c o = (c', out) -> Inv c').
 Proof. exact (conj inv_fresh inv_step). Qed.
 Print Assumptions C01_invariant.
+
+(** *** any mix of IBC v1 and v2-over-channel-alias traffic.  The v1 receipt (port, channel, seq) and the v2 receipt
+    (channel-as-client, seq) live in disjoint key spaces, so the per-chain theorem above does not by itself exclude that
+    one sent (channel, sequence) is delivered once as a v1 packet and once as a v2 packet.  It is excluded end to end:
+    in the two-chain world with honest clients, for every history of blocks, a v1 MsgRecvPacket and a v2 MsgRecvPacket
+    accepted over remote clients never carry the same source (channel, sequence) — v1 and v2 sends share one
+    nextSequenceSend counter per identifier ([C08]), so only one of the two commitments is ever written ([Excl]) and
+    every accepted receive proves one of them. *)
+Theorem C01_one_delivery_across_versions x l :
+  WIX x -> good_steps2 x l ->
+  let y := irun2 x l in
+  let lh := w_lh (iw (iw1 y)) in
+  (forall r r2, In r (g_rlog (gb (iw1 y))) -> In r2 (h_rlog (hb y)) -> r_client r <> lh -> r2_client r2 <> lh ->
+     snd (fst (r_src r)) = fst (r2_src r2) -> snd (r_src r) = snd (r2_src r2) -> False) /\
+  (forall r r2, In r (g_rlog (ga (iw1 y))) -> In r2 (h_rlog (ha y)) -> r_client r <> lh -> r2_client r2 <> lh ->
+     snd (fst (r_src r)) = fst (r2_src r2) -> snd (r_src r) = snd (r2_src r2) -> False).
+Proof. exact (one_delivery_across_versions x l). Qed.
+Print Assumptions C01_one_delivery_across_versions.
+
+Theorem C01_cross_version_invariant_initially w :
+  base_chain (wa w) -> base_chain (wb w) -> base_clients (wa w) (wb w) -> base_clients (wb w) (wa w) ->
+  WIX (mkIW2 (mkIW w ghost0 ghost0) ghost20 ghost20).
+Proof. exact (wix_base w). Qed.
+Print Assumptions C01_cross_version_invariant_initially.
+
+(** non-vacuity: a v1 send (sequence 1) and a v2 send over the alias of the same channel (sequence 2), both relayed
+    and both delivered on the other chain *)
+Example C01_cross_version_nonvacuous :
+  WIX exx0 /\ good_steps2 exx0 exx_steps /\
+  map r_src (g_rlog (gb (iw1 (irun2 exx0 exx_steps)))) = [(1, 10, 1)] /\ map r2_src (h_rlog (hb (irun2 exx0 exx_steps))) = [(10, 2)].
+Proof. exact (conj exx_wi (conj exx_good exx_delivered)). Qed.
 
 (** non-vacuity: a concrete state satisfies the invariant and a concrete 13-step history (duplicates, a failing
     application, an ORDERED timeout, multi-payload v2 receives) produces exactly the expected callbacks *)
